@@ -169,6 +169,18 @@ class Table:
                         self.seen_sign[key] = self._label(kind, key)
                     elif kind == "bool":
                         self.seen_bool[key] = self._label(kind, key)
+        # comparisons whose result is kept in a local (`let first = id.sbn == 0 && id.esi == 0;`, or the result of an inlined helper)
+        for blk in self.body.blocks:
+            if blk.cleanup:
+                continue
+            for s_ in blk.stmts:
+                if s_.k == "assign" and not s_.lhs[1] and s_.rv.k == "bin" and s_.rv.j.get("op") in ("Eq", "Ne", "Lt", "Le", "Gt", "Ge"):
+                    for f in facts_of(self.x.rvalue(s_.rv, self.x.depth), True):
+                        kind, key, fn = canon(f)
+                        if kind == "sign":
+                            self.seen_sign.setdefault(key, self._label(kind, key))
+                        elif kind == "bool":
+                            self.seen_bool.setdefault(key, self._label(kind, key))
         # returned comparison expressions
         for blk in self.body.blocks:
             if blk.cleanup:
@@ -256,10 +268,34 @@ class Table:
                         v = o.value()
                     elif o.place is not None and not o.place[1] and o.place[0] in lvd:
                         v = lvd[o.place[0]]
+                    elif o.place is not None and o.place[0] in lvd and isinstance(lvd[o.place[0]], tuple) and lvd[o.place[0]][0] == "adt":
+                        # payload of a tracked Ok(..)/Some(..)/Continue(..): `(x as Variant).0`
+                        pj = [e for e in o.place[1] if e[0] != "*"]
+                        tv = lvd[o.place[0]]
+                        if len(pj) == 2 and pj[0][0] == "d" and pj[0][2] == tv[1] and pj[1][0] == "f" and pj[1][1] == 0:
+                            v = tv[2]
+                elif s.rv.k == "aggr" and s.rv.j.get("ak") == "adt" and s.rv.j.get("variant") in ("Ok", "Some", "Err", "None", "Continue", "Break"):
+                    pay = None
+                    if len(s.rv.ops) == 1:
+                        o = s.rv.ops[0]
+                        if o.kind == "const" and isinstance(o.value(), bool):
+                            pay = o.value()
+                        elif o.place is not None and not o.place[1]:
+                            pay = lvd.get(o.place[0])
+                    v = ("adt", s.rv.j.get("variant"), pay)
+                elif s.rv.k == "discr" and s.rv.place is not None and not [e for e in s.rv.place[1] if e[0] != "*"] and \
+                        isinstance(lvd.get(s.rv.place[0]), tuple) and lvd[s.rv.place[0]][0] == "adt":
+                    vt = {n: int(d_) for d_, n in s.rv.j.get("variants", [])}
+                    if lvd[s.rv.place[0]][1] in vt:
+                        v = ("discr", vt[lvd[s.rv.place[0]][1]])
                 elif s.rv.k == "un" and s.rv.j["op"] == "Not":
                     o = s.rv.ops[0]
-                    if o.place is not None and not o.place[1] and o.place[0] in lvd:
+                    if o.place is not None and not o.place[1] and isinstance(lvd.get(o.place[0]), bool):
                         v = not lvd[o.place[0]]
+                if v is None and s.rv.k == "bin" and s.rv.j.get("op") in ("Eq", "Ne", "Lt", "Le", "Gt", "Ge") and s.lhs[0] != 0:
+                    r_ = self._eval_ret(self.x.rvalue(s.rv, self.x.depth), sc)
+                    if isinstance(r_, bool):
+                        v = r_
                 if v is None:
                     lvd.pop(s.lhs[0], None)
                     if s.lhs[0] == 0:
@@ -283,6 +319,17 @@ class Table:
                 lvd2 = dict(lv)
                 if t.dest is not None and not t.dest[1]:
                     lvd2.pop(t.dest[0], None)
+                    # `?` on a tracked Ok(..)/Err(..)/Some(..)/None
+                    if re.search(r"Try>?::branch$|::branch$", cp.replace(" ", "")) and t.args and t.args[0].place is not None and not t.args[0].place[1]:
+                        tv = dict(lv).get(t.args[0].place[0])
+                        if isinstance(tv, tuple) and tv[0] == "adt":
+                            lvd2[t.dest[0]] = ("adt", "Continue", tv[2]) if tv[1] in ("Ok", "Some") else ("adt", "Break", None)
+                    elif cp.endswith("::from_residual"):
+                        ty_ = self.body.locals[t.dest[0]]["ty"]
+                        if "Result<" in ty_[:30]:
+                            lvd2[t.dest[0]] = ("adt", "Err", None)
+                        elif "Option<" in ty_[:30]:
+                            lvd2[t.dest[0]] = ("adt", "None", None)
                 stack.append((t.target, ret, calls, vis, tuple(sorted(lvd2.items()))))
             elif t.k == "return":
                 npaths += 1
@@ -293,8 +340,10 @@ class Table:
                 n = len(t.targets) + 1
                 decided = []
                 dl = t.discr.place
-                if dl is not None and not dl[1] and dl[0] in dict(lv):
-                    val = int(dict(lv)[dl[0]])
+                if dl is not None and not dl[1] and isinstance(dict(lv).get(dl[0]), tuple) and dict(lv)[dl[0]][0] == "adt":
+                    dl = None   # a tracked enum value is only decided through its discriminant local
+                if dl is not None and not dl[1] and dl[0] in dict(lv) and (isinstance(dict(lv)[dl[0]], bool) or (isinstance(dict(lv)[dl[0]], tuple) and dict(lv)[dl[0]][0] == "discr")):
+                    val = int(dict(lv)[dl[0]]) if isinstance(dict(lv)[dl[0]], bool) else dict(lv)[dl[0]][1]
                     kk = len(t.targets)
                     for k2, (v2, _) in enumerate(t.targets):
                         if v2 == val:
